@@ -114,9 +114,20 @@ def mutate(frame, info, mut):
 def classify(frame, cmd_expected):
     """independent classification of the delivered bytes ->
     dict(cls: 'ok'|'status'|'encap'|'short'|'malformed', status, ext, service)"""
-    if len(frame) < 24:
+    # "too short to contain its status words" is a statement about the byte count: encapsulation status at
+    # 8..12, CIP general status at 42 (SendRRData) / 48 (SendUnitData)
+    need = {0x65: 12, 0x63: 12, 0x6F: 43, 0x70: 49}.get(cmd_expected, 24)
+    if len(frame) < need:
         return {"cls": "short"}
+    if len(frame) < 24:
+        return {"cls": "malformed", "why": "header"}
     cmd, length, sess, est, ctx8, opts = parse_encap_header(frame)
+    if cmd_expected is not None and cmd != cmd_expected:
+        # the command echo is not among the status words the statement speaks of; the layout of the reply is
+        # that of the outstanding request
+        if cmd not in (0x63, 0x65, 0x6F, 0x70):
+            return {"cls": "malformed", "why": "command"}
+        cmd = cmd_expected
     if len(frame) - 24 != length:
         return {"cls": "malformed", "why": "length"}
     if est != 0:
@@ -132,13 +143,13 @@ def classify(frame, cmd_expected):
     try:
         iface, tmo, items = parse_cpf(frame[24:])
     except WireError:
-        return {"cls": "short" if len(frame) < (49 if cmd == 0x70 else 43) else "malformed", "why": "cpf"}
+        return {"cls": "malformed", "why": "cpf"}
     if len(items) != 2:
         return {"cls": "malformed", "why": "items"}
     dd = items[1][1]
     mr = dd[2:] if cmd == 0x70 else dd
     if len(mr) < 4:
-        return {"cls": "short"}
+        return {"cls": "malformed", "why": "mr"}
     svc, st, nx = mr[0], mr[2], mr[3]
     if len(mr) < 4 + 2 * nx:
         return {"cls": "malformed", "why": "ext"}
@@ -397,7 +408,8 @@ def judge(sc, env, kind, fault, state, outcome, res, hits, ref):
     if state["delivered"] is None or state["info"].get("inapplicable"):
         return      # the fault position was not reached: nothing to judge
     delivered = state["delivered"]
-    c = classify(delivered, None)
+    expected_cmd = {"register": 0x65, "list_identity": 0x63, "generic_u": 0x6F, "generic_us": 0x6F, "plc_info": 0x6F}.get(kind, 0x70)
+    c = classify(delivered, expected_cmd)
     results = res if isinstance(res, list) else [res]
     truthy_any = outcome == "ok" and any(bool(x) for x in results if x is not None) and res is not False
     if kind in ("register", "list_identity", "upload_page", "upload_template", "upload_template_attrs", "plc_info"):
